@@ -121,6 +121,8 @@ static bool body_lane(const Case &c, Ctx &ctx)
         ka[i] = k->a_shifted ? a[i] ^ MSBv : a[i];
         o1[i] = o2[i] = 0xABABABABABABABABull;
     }
+    { bool bc = true; int zl = 0; for (int i = 0; i < L; i++) { if (a[i] != a[0] || b[i] != b[0]) bc = false; if (a[i] == 0 && b[i] == 0) zl++; }
+      if (bc) ctx.cls("register:one-pair-broadcast-to-all-lanes"); else if (zl == L - 1) ctx.cls("register:one-live-lane-among-zero-lanes"); }
     k->run(ka, b, o1, o2);
     for (int i = 0; i < L; i++) {
         uint64_t r = k->out_shifted ? o1[i] ^ MSBv : o1[i];
@@ -223,11 +225,19 @@ static rc::Gen<std::vector<uint64_t>> gen_lane(const Kern *k)
         pg = rc::gen::weightedOneOf<g::P2>({{3, pg}, {3, solved72}});
     }
     int L = k->L;
-    return rc::gen::map(rc::gen::container<std::vector<g::P2>>(L, pg), [L](const std::vector<g::P2> &ps) {
+    // register-level shapes on top of the per-lane pairs: independent lanes (usual), one pair broadcast to every lane, one interesting lane among
+    // zero lanes / among copies of another lane (what a whole-register fast path or a cross-lane slip would need)
+    return rc::gen::apply([L](const std::vector<g::P2> &ps, uint64_t mode) {
         std::vector<uint64_t> v(2 * L);
         for (int i = 0; i < L; i++) { v[i] = ps[i].first; v[L + i] = ps[i].second; }
+        const int sh = (int)(mode % 10), /* 0-4 independent lanes */ k = (int)((mode >> 8) % (uint64_t)L), j = (int)((mode >> 16) % (uint64_t)L);
+        if (sh == 6) for (int i = 0; i < L; i++) { v[i] = ps[k].first; v[L + i] = ps[k].second; }
+        else if (sh == 7) for (int i = 0; i < L; i++) if (i != k) { v[i] = (mode >> 24) & 1 ? 0 : ps[j].first; v[L + i] = (mode >> 25) & 1 ? 0 : ps[j].second; }
+        else if (sh == 8) for (int i = 0; i < L; i++) if (i != k) { v[L + i] = ps[i].second & 0xFFFFFFFFull; }   // every second operand but one fits 32 bits
+        else if (sh == 9) for (int i = 0; i < L; i++) if (i != k) { v[i] = ps[i].first % PR; v[L + i] = ps[i].second % PR; } // every lane canonical but one
+        else if (sh == 5) { const bool upper = (mode >> 24) & 1; for (int i = 0; i < L; i++) if ((i >= L / 2) == upper) { v[i] &= 0xFFFFFFFFull; v[L + i] &= 0xFFFFFFFFull; } } // one half of the register: both operands fit 32 bits
         return v;
-    });
+    }, rc::gen::container<std::vector<g::P2>>(L, pg), g::uni64());
 }
 
 // ---- matrix kernels (C13 AVX2, C14 AVX512) -------------------------------------------------
@@ -273,7 +283,7 @@ static bool body_mat(const Case &c, Ctx &ctx)
     // changes, so that anything keyed on the pointer value (a cached verdict about the matrix, a memo) goes stale at once; now and then a fresh mapping
     static std::map<std::pair<size_t, size_t>, std::unique_ptr<guard::Buf>> pool;
     guard::Buf fresh; guard::Buf *gbp = &fresh;
-    if (((c.v[0] >> 1) & 3) != 0) { auto &q = pool[{nb, misalign ? 8 : 0}]; if (!q) q.reset(new guard::Buf(nb, misalign ? 8 : 0)); gbp = q.get(); ctx.cls("mat:coefficient-array-at-a-persistent-address"); }
+    if (((c.v[0] >> 1) & 3) != 0 && !pbt::in_concurrent()) { auto &q = pool[{nb, misalign ? 8 : 0}]; if (!q) q.reset(new guard::Buf(nb, misalign ? 8 : 0)); gbp = q.get(); ctx.cls("mat:coefficient-array-at-a-persistent-address"); }
     else fresh.alloc(nb, misalign ? 8 : 0);
     E *co = gbp->as<E>();
     const uint64_t *pc = &c.v[12 * S];
@@ -494,5 +504,6 @@ int main(int argc, char **argv)
         const MKern *k = &MKERNS[i];
         props.push_back({k->name, [k] { return gen_mat(k); }, body_mat, k->ncoef == 144 ? 0.4 : 1.0, false, desc_mat, 100});
     }
+    for (auto &p : props) p.mt_ok = true;
     return pbt::harness_main(argc, argv, "h_lanes", props);
 }
